@@ -2,7 +2,7 @@
 import re
 
 from .. import hirq, nf, slicer, panic
-from ..rulelib import (resolver_of, tree_of, slicer_of, user_nodes, writes_to_self, self_method_calls, hir_dominates, check_seeds,
+from ..rulelib import (def_exprs, resolver_of, tree_of, slicer_of, user_nodes, writes_to_self, self_method_calls, hir_dominates, check_seeds,
                        check_roots, short)
 from . import C04
 
@@ -303,8 +303,25 @@ def u32view(ctx, facts):
             ctx.violation("U32VIEW", fid, "result roots", hirq.loc(fn), "the u32 view depends on %s, expected self.values and a literal only" % sorted(roots))
     if len(forms) == 2:
         a, b = list(forms.items())
-        da = nf.nf([n for n in user_nodes(facts.fn(a[0])) if n["k"] == "Call" and short(n.get("callee", "")) == "murmur3_32"][0])
-        db = nf.nf([n for n in user_nodes(facts.fn(b[0])) if n["k"] == "Call" and short(n.get("callee", "")) == "murmur3_32"][0])
+
+        def sig_of(fid):
+            """what the rehash of one stored value is made of: the byte conversion(s) applied to it and the literal seed — the
+            same in both structs whatever the surrounding iteration idiom (map/collect, push loop, named temporaries)"""
+            fn_ = facts.fn(fid)
+            call = [n for n in user_nodes(fn_) if n["k"] == "Call" and short(n.get("callee", "")) == "murmur3_32"][0]
+            convs, seen, work = [], set(), [call["args"][0]]
+            while work:
+                e_ = work.pop()
+                for x in hirq.walk(e_):
+                    if x["k"] == "MethodCall" and x["name"].startswith("to_") and x["name"].endswith("_bytes"):
+                        convs.append(x["name"])
+                    if x["k"] == "Path" and "local" in x["res"] and x["res"]["name"] not in seen:
+                        seen.add(x["res"]["name"])
+                        ds = def_exprs(fn_, x["res"]["name"])
+                        if len(ds) == 1:
+                            work.append(ds[0])
+            return "murmur3_32(%s of a stored value, seed %s)" % (sorted(convs), nf.nf(call["args"][1]))
+        da, db = sig_of(a[0]), sig_of(b[0])
         if da == db:
             ctx.ok("U32VIEW", b[0], "same expression in both structs: %s" % da[:80], hirq.loc(facts.fn(b[0])))
         else:
